@@ -97,6 +97,12 @@ pub fn run(id: &str) -> i32 {
         }
         // KF14: a source that never releases anything cannot be converted into a delta-min Curve (constructor panics)
         "KF14" => { catch_unwind(|| Curve::from_arrival_bound(&Never {}, 5)).is_err() && catch_unwind(|| Curve::from_arrival_bound_until(&Never {}, d(5))).is_err() }
+        // KF15: intermediate overflow in Constrained::service_time for periods above 2^63 although the result is representable
+        "KF15" => {
+            let c = supply::Constrained::new(s(1u64 << 63), d((1u64 << 63) + 1), d((1u64 << 63) + 1));
+            use response_time_analysis::supply::SupplyBound;
+            match catch_unwind(|| c.service_time(s((1u64 << 63) - 1))) { Err(_) => true, Ok(v) => v != d((1u64 << 63) + 1) }
+        }
         _ => { eprintln!("unknown witness {}", id); return 2; }
     };
     println!("{} {}", id, if reproduces { "reproduces" } else { "does not reproduce" });
